@@ -300,6 +300,8 @@ Step(m0) ==
            [] e.k = "idx" -> [m EXCEPT !.k = Push(Push(Push(rest, [t |-> "idx"]), [t |-> "ev", e |-> e.i]), [t |-> "ev", e |-> e.a])]
            [] e.k = "call" -> [m EXCEPT !.k = EvalList(Push(rest, [t |-> "apply", f |-> e.f, fs |-> e.site, n |-> Len(e.as)]), e.as)]
            [] e.k = "member" -> Unspec(m, "member access without a call")
+           \* `f()(1)`, `a[0](2)`: functions are not values, so whatever the callee evaluates to cannot be called
+           [] e.k = "callx" -> Unspec(m, "call of a value")
            [] e.k = "mcall" ->
                 IF e.m \in MutMethods /\ IsLv(e.o)
                 THEN \* mutation through an lvalue path: argument first, then the path's indexes
